@@ -23,12 +23,90 @@ EXPLANATION = (
 )
 
 
+def block_ops_evaluated(repo: Repo, which: str):
+    """LinearBlockCodeEncoder.forward ("encode") / calculate_syndrome ("syndrome") evaluated as a whole (apply_blockwise and
+    the closure followed, own arithmetic) for three codes - two with parity-check matrices that have a linearly dependent
+    row, in the middle and at the end - on 1-D, 2-D and 3-D inputs of one and two blocks: block by block the result must
+    be m G mod 2 (n symbols per block) / x H^T mod 2 with ALL rows of H; a last dimension that is not a multiple of the
+    block length must raise.  Returns (status, detail) or (None, reason)."""
+    from ..constfold import Unfoldable
+    from ..frag import FragRaise, FragReturn, coverage_scope, run_fragment
+
+    ci = repo.cls(LIN, "LinearBlockCodeEncoder")
+    fi = repo.method(ci, "forward" if which == "encode" else "calculate_syndrome")
+    funcs = {f"self.{nm}": m.node for nm, m in ci.methods.items() if nm not in ("forward", "__init__", fi.name)}
+    funcs.update({nm: f.node for nm, f in repo.func(UTL, "apply_blockwise").module.functions.items()})
+    funcs.update({nm: f.node for nm, f in ci.module.functions.items()})
+    codes = (
+        ([[1, 0, 1, 1, 0], [0, 1, 0, 1, 1]], [[1, 0, 1, 0, 0], [1, 1, 0, 1, 0], [0, 1, 0, 0, 1], [0, 1, 1, 1, 0]]),
+        ([[1, 0, 1, 1, 0], [0, 1, 0, 1, 1]], [[1, 0, 1, 0, 0], [1, 0, 1, 0, 0], [1, 1, 0, 1, 0], [0, 1, 0, 0, 1]]),
+        ([[1, 1, 0, 1], [0, 1, 1, 1], [1, 1, 1, 0]], [[1, 0, 1, 1]]),
+    )
+
+    def rows(z):
+        return [z] if not z or not isinstance(z[0], list) else [r_ for t in z for r_ in rows(t)]
+
+    def shape(z):
+        return (len(z),) + shape(z[0]) if isinstance(z, list) and z else ((0,) if isinstance(z, list) else ())
+
+    cases = 0
+    scope = coverage_scope()
+    scope.__enter__()
+    try:
+        for G, H in codes:
+            k, n = len(G), len(G[0])
+            assert all(sum(g[t] * h[t] for t in range(n)) % 2 == 0 for g in G for h in H)
+            blk, M, width = (k, G, n) if which == "encode" else (n, [[H[c][t] for c in range(len(H))] for t in range(n)], len(H))
+            attrs0 = {"self.generator_matrix": G, "self._generator_matrix": G, "self.check_matrix": H, "self._check_matrix": H, "self.code_length": n, "self._length": n, "self.code_dimension": k, "self._dimension": k, "self.redundancy": n - k, "self._redundancy": n - k, "self.parity_bits": n - k}
+            words = [[(i * 3 + j + (i * j) % 2) % 2 for j in range(blk)] for i in range(5)]
+            words[1] = [1] * blk
+            inputs = [words[0] + words[2], [words[1], words[3]], [[words[4] + words[0]], [words[2] + words[1]]], list(words[3])]
+            for x in inputs:
+                try:
+                    run_fragment(fi.body, {"x": [list(r_) if isinstance(r_, list) else r_ for r_ in x], "args": [], "kwargs": {}}, dict(attrs0), funcs=funcs, materialise=True, max_steps=400000, attrs_live=True)
+                    return None, "no value returned"
+                except FragReturn as ret:
+                    got = ret.value
+                except FragRaise:
+                    return VIOLATION, f"block length {blk}: a valid input of shape {shape(x)} is rejected"
+                except (Unfoldable, TypeError, IndexError, ValueError, KeyError) as exc:
+                    return None, f"not evaluable ({exc})"
+                want = [[sum(row[j * blk + t] * M[t][c] for t in range(blk)) % 2 for j in range(len(row) // blk) for c in range(width)] for row in rows(x)]
+                if not isinstance(got, list) or rows(got) != want or shape(got)[:-1] != shape(x)[:-1]:
+                    what = "code word m G mod 2" if which == "encode" else f"syndrome x H^T mod 2 (H has {len(H)} rows, n - k = {n - k})"
+                    return VIOLATION, f"G = {G}, H = {H}, input of shape {shape(x)}: the result is {rows(got)[0] if isinstance(got, list) and got else got} (shape {shape(got)}); the {what}, block by block, is {want[0]}" + ("" if which == "encode" else " - a word that violates a dropped check gets an all-zero syndrome")
+                cases += 1
+            try:
+                run_fragment(fi.body, {"x": [0] * (blk + 1), "args": [], "kwargs": {}}, dict(attrs0), funcs=funcs, materialise=True, max_steps=100000, attrs_live=True)
+                return VIOLATION, "a last dimension that is not a multiple of the block length is not rejected"
+            except FragRaise:
+                pass
+            except FragReturn:
+                return VIOLATION, f"an input of length {blk + 1} (not a multiple of {blk}) is answered instead of rejected"
+            except (Unfoldable, TypeError, IndexError, ValueError, KeyError, AssertionError) as exc:
+                return None, f"invalid length not evaluable ({exc})"
+    finally:
+        scope.__exit__()
+    gap = scope.note([fi.node])
+    if gap:
+        return None, gap
+    return OK, f"{cases} inputs (1-D / 2-D / 3-D, one and two blocks) for three codes, two with a dependent parity-check row: " + ("m G mod 2" if which == "encode" else "x H^T mod 2 with all rows of H") + " block by block; invalid length rejected"
+
+
 def rule_encode_form(repo: Repo, rep: Report) -> int:
     ci = repo.cls(LIN, "LinearBlockCodeEncoder")
     fwd = repo.method(ci, "forward")
-    block_matmul_rule(rep, "ENCODE-FORM", fwd, "encode_fn", "self.generator_matrix", False, {"self.code_dimension", "self._dimension"}, {"self.code_length", "self._length"}, "encode: c = m.G mod 2")
+    est_, ed_ = block_ops_evaluated(repo, "encode")
+    if est_ is not None:
+        rep.add("ENCODE-FORM", fwd, "forward evaluated as a whole: m G mod 2 block by block", est_, ed_, node=fwd.node)
+    else:
+        block_matmul_rule(rep, "ENCODE-FORM", fwd, "encode_fn", "self.generator_matrix", False, {"self.code_dimension", "self._dimension"}, {"self.code_length", "self._length"}, "encode: c = m.G mod 2")
     syn = repo.method(ci, "calculate_syndrome")
-    block_matmul_rule(rep, "ENCODE-FORM", syn, "syndrome_fn", "self.check_matrix", True, {"self.code_length", "self._length"}, {"self.code_dimension", "self._dimension"}, "syndrome: s = x.H^T mod 2")
+    est_, ed_ = block_ops_evaluated(repo, "syndrome")
+    if est_ is not None:
+        rep.add("ENCODE-FORM", syn, "calculate_syndrome evaluated as a whole: x H^T mod 2 block by block, all rows of H", est_, ed_, node=syn.node)
+    else:
+        block_matmul_rule(rep, "ENCODE-FORM", syn, "syndrome_fn", "self.check_matrix", True, {"self.code_length", "self._length"}, {"self.code_dimension", "self._dimension"}, "syndrome: s = x.H^T mod 2")
     # the published buffers are what __init__ registered from its argument / the null-space helper
     init = repo.method(ci, "__init__")
     regs = {c.args[0].value: c.args[1] for c in ast.walk(init.node) if isinstance(c, ast.Call) and attr_chain(c.func) == "self.register_buffer" and len(c.args) >= 2 and isinstance(c.args[0], ast.Constant)}
@@ -292,6 +370,27 @@ def rule_systematic_matrix(repo: Repo, rep: Report) -> int:
     okl = "torch.arange(k)" in vals.get("information_indices", []) and "torch.arange(k, n)" in vals.get("parity_indices", [])
     okr = "torch.arange(n - k, n)" in vals.get("information_indices", []) and "torch.arange(n - k)" in vals.get("parity_indices", [])
     okc = any(v.startswith("torch.tensor([i for i in all_indices if i not in information_indices]") for v in vals.get("parity_indices", []))
+    # the caller's index list must not be modified: the constructor hands the same list object to this function twice
+    # (once for the encoder's index buffers, once inside create_systematic_generator_matrix for the published G)
+    aliases = {a.arg for a in gi.node.args.args}
+    grew = True
+    while grew:
+        grew = False
+        for s_ in ast.walk(gi.node):
+            if isinstance(s_, ast.Assign) and len(s_.targets) == 1 and isinstance(s_.targets[0], ast.Name) and isinstance(s_.value, ast.Name) and s_.value.id in aliases and s_.targets[0].id not in aliases:
+                aliases.add(s_.targets[0].id)
+                grew = True
+    INPLACE = ("sort", "reverse", "append", "extend", "insert", "pop", "remove", "clear")
+    muts = []
+    for s_ in ast.walk(gi.node):
+        if isinstance(s_, ast.Call) and isinstance(s_.func, ast.Attribute) and isinstance(s_.func.value, ast.Name) and s_.func.value.id in aliases and (s_.func.attr in INPLACE or (s_.func.attr.endswith("_") and not s_.func.attr.startswith("_"))):
+            muts.append(s_)
+        if isinstance(s_, (ast.Assign, ast.AugAssign)):
+            for t_ in s_.targets if isinstance(s_, ast.Assign) else [s_.target]:
+                if isinstance(t_, ast.Subscript) and isinstance(t_.value, ast.Name) and t_.value.id in aliases:
+                    muts.append(s_)
+    for m_ in muts:
+        rep.violation("SYSTEMATIC", gi, "the information-set argument is modified in place", f"`{unparse(m_)[:70]}` changes the caller's own list/tensor: the encoder's constructor passes the same object again when it builds the published generator matrix, which is then laid out for a different order of the information positions than the encoder's index buffers (encoder(u) != u G for a permuted index list)", node=m_)
     if not (okl and okr and okc):
         est, edetail = info_parity_sets_evaluated(gi)
         if est is None:
